@@ -6,7 +6,11 @@ Model: `Model/C01.lean` (`fromFile` = `BeaconConfig.from_file/from_bytes/from_pa
 `findConfigBytes`, scan loop over a `FileLike`).  Specification: `candidates (views data det) keys` = all
 `(view, key, offset)` with `CONFIG_HEADER ⊕ key` occurring at `offset` of `view`, in (view, key priority, file order).
 Parameters (see the model): `det` = answer of the XorEncoded detector (C09), `left` = order of the residual keys of the
-all-keys retry, `guard` = Guardrails fallback (C17), `B` = `io.DEFAULT_BUFFER_SIZE`. -/
+all-keys retry, `guard` = Guardrails fallback (C17), `B` = `io.DEFAULT_BUFFER_SIZE`.
+Section "end to end" discharges the three parameters: `fromFileReal` (what the driver runs) computes them, and
+`extract_raw_end_to_end`, `extract_xorencoded_end_to_end`, `extract_none_end_to_end`, `extract_guardrails_end_to_end` have
+hypotheses about the bytes of the payload only (C09 `detect_rejects_real` / `detect_correct_real_clean`, C17
+`scan_reports_iff` / `recover_from_file_partial`); `fromFile_C08_factors` ties C08's composition to the same function. -/
 namespace C01
 open Gen.Extract
 
